@@ -95,8 +95,37 @@ def simple_unit(kf):
                      sig_rewrites=[ReSub(r'&self', f'this: &{T}')],
                      rewrites=[Sub('*self', '*this', count='*', rule='R-self'), Sub('self.clone()', 'this.clone()', count='*', rule='R-self')],
                      ensures=[f'r is {var}', f'r->{var}_0 == *this' if T == 'bool' else f'r->{var}_0@ == this@'])
+    # ID: a string, or an integer that fits i64 (printed in decimal)
+    IDF = 'src/types/id.rs'
+    u.extract_type(IDF, ['struct ID'])
+    u.trusted('''
+impl Number {
+    pub uninterp spec fn spec_display(&self) -> Seq<char>;       // Display for serde_json::Number (assumed)
+    #[verifier::external_body]
+    pub fn to_string(&self) -> (r: String) ensures r@ == self.spec_display() { unimplemented!() }
+}''', 'Number::to_string shim')
+    u.extract_fn(IDF, ['impl ScalarType for ID', 'fn parse'], name='ID_parse', label=IDF + '::impl ScalarType for ID::fn parse',
+                 sig_rewrites=[ReSub(r'InputValueResult<Self>', 'InputValueResult<ID>')], rewrites=COMMON,
+                 ensures=['''match value {
+            Value::String(s) => r is Ok && r->Ok_0.0@ == s@,                                                   // any string
+            Value::Number(n) => if n.spec_as_i64().is_some() { r is Ok && r->Ok_0.0@ == n.spec_display() } else { r is Err },   // an integer that fits i64, nothing else numeric
+            _ => r is Err,
+        }'''])
+    u.extract_fn(IDF, ['impl ScalarType for ID', 'fn is_valid'], name='ID_is_valid', label=IDF + '::impl ScalarType for ID::fn is_valid',
+                 ensures=['r == (value is String || (value is Number && value->Number_0.spec_as_i64().is_some()))'])
+    u.extract_fn(IDF, ['impl ScalarType for ID', 'fn to_value'], name='ID_to_value', label=IDF + '::impl ScalarType for ID::fn to_value',
+                 sig_rewrites=[ReSub(r'&self', 'this: &ID')], rewrites=[Sub('self.0.clone()', 'this.0.clone()', rule='R-self')],
+                 ensures=['r is String && r->String_0@ == this.0@'])
+    u.spec('''
+// round trip as a checked composition of the two contracts
+fn ID_roundtrip(x: ID) {
+    let v = ID_to_value(&x);
+    let r = ID_parse(v);
+    assert(r is Ok && r->Ok_0.0@ == x.0@);
+}''', 'ID round-trip lemma')
     u.search_case('bool.rs', 'c07_simple')
     u.search_case('string.rs', 'c07_simple')
+    u.search_case('id.rs', 'c07_simple')
     return u
 
 
